@@ -241,6 +241,14 @@ def _one(v):
     return next(iter(v)) if v is not TOP and v is not None and len(v) == 1 else None
 
 
+def _cell(E, path):
+    """one byte cell: the stored value, else the initialiser of a constant (or private, never written) table"""
+    b = _one(E.get(path))
+    if b is None and (path[:2] in ('G:', 'S:') or '::SL:' in path) and '[' in path:
+        b = _one(E.eng.const_table_cell(path))
+    return b
+
+
 class SAConc:
     """mixin: the stralloc family and the str/byte helpers on concrete bytes.  A stralloc object at path P is the cells
     P.len and P.s[k] with P.s = &P.s[0]; a C string is a run of byte cells up to a 0 cell.  Allocation never fails
@@ -266,7 +274,7 @@ class SAConc:
             q = ptr_add(p, k) if isinstance(p, tuple) else None
             if q is None and k == 0 and isinstance(p, tuple) and p[0] == '&':
                 q = p           # the address of a scalar object (&ch)
-            b = _one(E.get(q[1])) if q is not None else None
+            b = _cell(E, q[1]) if q is not None else None
             if not isinstance(b, int):
                 return None
             out.append(b & 255)
@@ -279,7 +287,7 @@ class SAConc:
         out = []
         for k in range(600):
             q = ptr_add(p, k) if isinstance(p, tuple) else None
-            b = _one(E.get(q[1])) if q is not None else None
+            b = _cell(E, q[1]) if q is not None else None
             if not isinstance(b, int):
                 return None
             if b == 0:
